@@ -480,7 +480,7 @@ pub fn driver_main(check: &dyn Check, tier: Tier, seed: u64, replay_idx: Option<
             ws.push(WorkerState { child, gen: gen_ctr, next: w as u64, open: None, done: false });
         }
         // (re)start slot `s` at case `next`, or mark it done
-        let mut respawn = |ws: &mut Vec<WorkerState>, s: usize, next: u64, gen_ctr: &mut u64| {
+        let respawn = |ws: &mut Vec<WorkerState>, s: usize, next: u64, gen_ctr: &mut u64| {
             ws[s].child.kill().ok();
             ws[s].child.wait().ok();
             ws[s].open = None;
